@@ -183,10 +183,21 @@ class Impl:
             wf.process_nglob_changes(set(op[2]), set(op[3]))
             self.last_invalidated = sorted({l for i, l, dt in self.db.execute(q) if before.get(i, (l, None))[1] != dt})
         elif name == "init_boot":
-            # no plan.py in the working directory: FileHash.refreshed gives the unknown hash
+            # initialize_boot hashes the real ./plan.py: run it in a scratch directory that holds a plan.py
+            # with the content of hash id op[1], or no plan.py at all (unknown hash) for None
             import os
-            assert not os.path.exists("plan.py"), "E2 must not run in a directory with a plan.py"
-            wf.initialize_boot()
+            import tempfile
+            old_cwd = os.getcwd()
+            with tempfile.TemporaryDirectory(prefix="c09-e2-boot-") as tmp:
+                if op[1] is not None:
+                    fh(op[1])                                    # registers the digest -> id
+                    with open(os.path.join(tmp, "plan.py"), "wb") as fobj:
+                        fobj.write(b"content-%d" % op[1])
+                os.chdir(tmp)
+                try:
+                    wf.initialize_boot()
+                finally:
+                    os.chdir(old_cwd)
         elif name == "frame":
             kind = op[1]
             if kind == "nglob":
@@ -1184,7 +1195,7 @@ class Gen:
         if self.rng.random() < 0.4 and self.fstate.get("plan.py") == FileState.CONFIRMED.value \
                 and not self.detached.get(("file", "plan.py"), True):
             await self.record(("update_hashes", "EXTERNAL", (("plan.py", None),)))
-        await self.record(("init_boot", None))
+        await self.record(("init_boot", None if self.rng.random() < 0.4 else self.newhash()))
 
     async def g_nglob(self, label):
         paths = tuple(p for p in ("g0", "g1") if self.rng.random() < 0.5)
